@@ -260,34 +260,84 @@ fn real_binary_restarts(ctx: &Ctx, out: &mut Out, rng: &mut Rng) {
     if ctx.shard >= 4 && !ctx.thorough {
         return;
     }
-    let seed = rng.bytes(32);
+    // seed texts that a configuration parser may type as something other than a string: all
+    // decimal digits (with and without leading zeros), digits with one 'e' (a float to YAML)
+    let mut seed = rng.bytes(32);
+    let shape = ["random", "all-decimal-digits", "decimal-leading-zeros", "decimal-with-exponent"][(ctx.shard % 4) as usize];
+    match shape {
+        "all-decimal-digits" => {
+            for b in seed.iter_mut() {
+                *b = ((rng.below(10) as u8) << 4) | rng.below(10) as u8;
+            }
+            seed[0] = ((rng.range(1, 9) as u8) << 4) | rng.below(10) as u8;
+        }
+        "decimal-leading-zeros" => {
+            for b in seed.iter_mut() {
+                *b = ((rng.below(10) as u8) << 4) | rng.below(10) as u8;
+            }
+            seed[0] = 0;
+            seed[1] = rng.below(10) as u8;
+        }
+        "decimal-with-exponent" => {
+            for b in seed.iter_mut() {
+                *b = ((rng.below(10) as u8) << 4) | rng.below(10) as u8;
+            }
+            seed[0] = ((rng.range(1, 9) as u8) << 4) | rng.below(10) as u8;
+            seed[1] = 0xe0 | rng.below(10) as u8;
+        }
+        _ => {}
+    }
+    out.obs(&format!("real_binary_seed_shape_{}", shape), 1);
     let pk = RefKey::from_seed(&seed).public();
-    let desc = json!({"kind":"real-restarts","seed":hex(&seed)});
+    let desc = json!({"kind":"real-restarts","seed":hex(&seed),"seed_shape":shape});
     let starts = if ctx.thorough { 20 } else { 3 };
     let mut online = std::collections::HashSet::new();
     for k in 0..starts {
         let mut cfg = SrvCfg::new(free_port(false), &seed);
         cfg.num_workers = Some(*rng.pick(&[1u32, 2, 4]));
         cfg.via_env = k % 2 == 1;
+        // the first start of each shard runs under the clock shim: after the first probes its wall
+        // clock is stepped forward (a server that has been up for minutes, a month, a year)
+        let shim = ctx.bins.join("clockshim.so");
+        let off_file = ctx.scratch.join(format!("c10-clock-offset-{}", ctx.shard));
+        let stepped = k == 0 && shim.exists();
+        if stepped {
+            std::fs::create_dir_all(&ctx.scratch).ok();
+            let _ = std::fs::write(&off_file, "0");
+            cfg.extra_env = vec![("LD_PRELOAD".into(), shim.display().to_string()), ("RTVERIF_CLOCK_OFFSET_FILE".into(), off_file.display().to_string())];
+        }
         let Ok(mut sp) = spawn_server(&ctx.bins, &cfg, &ctx.scratch, &format!("c10r{}", k), None) else {
             out.inconclusive("spawn failed");
             continue;
         };
-        if sp.wait_ready(&pk, std::time::Duration::from_secs(10)).is_err() {
-            // readiness itself verifies a reply under the reference key: not ready = C15's business
-            out.inconclusive("real server not ready");
-            continue;
-        }
-        out.obs("real_binary_starts", 1);
-        // the announced key in the start-up log
+        let ready = sp.wait_ready(&pk, std::time::Duration::from_secs(10));
+        // the announced key in the start-up log (looked at whether or not replies verify under
+        // the expected key: a server that came up under another identity is not "not ready")
         let announced = sp.output().lines().find(|l| l.contains("Long-term public key")).map(|l| l.rsplit(':').next().unwrap_or("").trim().to_string());
         if let Some(a) = announced {
             out.obs("real_binary_announced_keys_compared", 1);
             if a != hex(&pk) {
-                out.violation("C10 announced-public-key differs origin=real-binary", &format!("start-up log announces {} but the RFC 8032 key of the seed is {}", a, hex(&pk)), desc.clone());
+                out.violation(
+                    &format!("C10 announced-public-key differs origin=real-binary seed-shape={} source={}", shape, if cfg.via_env { "ENV" } else { "file" }),
+                    &format!("start-up log announces {} but the RFC 8032 key of the seed is {}", a, hex(&pk)),
+                    desc.clone(),
+                );
             }
         }
-        for i in 0..40 {
+        if ready.is_err() {
+            // readiness itself verifies a reply under the reference key: not ready = C15's / C16's business
+            out.inconclusive("real server not ready");
+            continue;
+        }
+        out.obs("real_binary_starts", 1);
+        let nprobes = if stepped { 88 } else { 40 };
+        for i in 0..nprobes {
+            if stepped && i >= 40 && i % 12 == 4 {
+                let off: u64 = [61, 3_600, 86_400 * 30, 86_400 * 399][(i - 40) / 12];
+                let _ = std::fs::write(&off_file, off.to_string());
+                std::thread::sleep(std::time::Duration::from_millis(5));
+                out.obs("real_binary_clock_steps", 1);
+            }
             let p = if i % 2 == 0 { Proto::Classic } else { Proto::Ietf };
             let s = std::net::UdpSocket::bind("127.0.0.1:0").unwrap();
             let sv = srv_value(&pk);
@@ -305,6 +355,9 @@ fn real_binary_restarts(ctx: &Ctx, out: &mut Out, rng: &mut Rng) {
             let Some(cert) = m.get(CERT) else { continue };
             let midp = m.get(SREP).and_then(|s| RefMsg::decode(s).ok()).and_then(|s| s.get(MIDP).map(|b| u64::from_le_bytes(b.try_into().unwrap_or([0; 8]))));
             out.obs("certs_from_real_binary", 1);
+            if stepped && i >= 44 {
+                out.obs("certs_from_real_binary_after_clock_step", 1);
+            }
             check_cert(out, cert, &pk, p, midp, "real-binary", &desc);
             let view = crate::refimpl::verify::ReqView { proto: p, packet: &pkt, nonce };
             if let Ok(v) = crate::refimpl::verify::verify_response(&view, &buf[..n], &pk, crate::refimpl::verify::Opts { strict: true }) {
